@@ -67,10 +67,10 @@ func wrRuns(b []byte, off int) string {
 	// where the bytes stop following the stream, for the monitor's message
 	for i := range b {
 		if b[i] != c07GenByte(off+i) {
-			return fmt.Sprintf("byte %d is %02x, the stream has %02x there", i, b[i], c07GenByte(off+i))
+			return fmt.Sprintf("byte %d is %02x, the stream has %02x there (a fragment is missing or repeated)", i, b[i], c07GenByte(off+i))
 		}
 	}
-	return "all bytes follow the stream"
+	return "they continue the stream beyond what was accepted"
 }
 
 type wrServerConn interface {
